@@ -148,6 +148,12 @@ def run(ctx):
             ctx.violation('serialisation-reads-back', sub, i, {**wit, 'reparsed': back.brief()}, mech='layout-roundtrip')
 
     def body(i, rng, ty, T):
+        if rng.random() < 0.25:
+            # the same tagged union under one more annotation that changes nothing (an always-true condition): dispatch and,
+            # above all, the layout WRITTEN must not change
+            from .. import conds as C
+            T = t.Annotated[T, C.build_cond({'op': 'user', 'fn': 'always'})]
+            ctx.count('condition_wrapped_unions')
         base = [genval.tagged_member(ty, rng, variant=j % len(ty.a)) for j in range(len(ty.a) + 1)]
         vals = [(b, 'member') for b in base]
         for b in base[:2]:
